@@ -1,7 +1,7 @@
 (* InstanceProofs.v - facts about the regenerated instance, by vm_compute (re-checked every run) *)
 From Coq Require Import String.
 From Coq Require Import List NArith ZArith Bool.
-Require Import Bytes Schema Fields Codec Session SessionProofs Generated Instance.
+Require Import Bytes Schema Fields Codec CodecRT SchemaCheck Session SessionProofs Generated Instance.
 Import ListNotations.
 
 Lemma inst_env_ok : env_ok_b inst_T = true.
@@ -15,3 +15,25 @@ Lemma inst_K_values :
   k_success inst_K = 0%N /\ k_failed inst_K = 1%N /\ k_general_failure inst_K = 256%N /\
   k_not_supported inst_K = 5%N /\ k_invalid_message inst_K = 4%N /\ k_discover_versions inst_K = 30%N.
 Proof. vm_compute. repeat split; reflexivity. Qed.
+
+(* the schema regenerated from /repo satisfies the conditions of the round-trip theorem: in every
+   structure type the wire tags are proper and pairwise distinct, an any-tag field is last, optional
+   and skipped, every dynamic field is discriminated by an earlier Enumeration / Text String sibling,
+   and every dispatch target is a primitive or a known structure type *)
+Lemma inst_table_ok : table_ok_b the_type_table = true.
+Proof. vm_compute. reflexivity. Qed.
+
+Lemma inst_codec_env_ok : env_ok inst_T.
+Proof. exact (table_env_ok the_type_table inst_table_ok). Qed.
+
+Definition request_tag : N := 4325496.    (* 0x420078 Request Message *)
+Definition response_tag : N := 4325499.   (* 0x42007B Response Message *)
+
+Lemma inst_request_type : exists fl, inst_T "Request" = Some (request_tag, fl).
+Proof. vm_compute. eexists. reflexivity. Qed.
+
+Lemma inst_response_type : exists fl, inst_T "Response" = Some (response_tag, fl).
+Proof. vm_compute. eexists. reflexivity. Qed.
+
+Lemma message_tags_ok : tag_ok request_tag /\ tag_ok response_tag.
+Proof. split; apply tag_ok_b_sound; vm_compute; reflexivity. Qed.
